@@ -907,6 +907,21 @@ Proof.
 Qed.
 End EndToEnd.
 
+(* ====================== the specification on concrete masks (sanity of Spec/MsmMasks.v) ====================== *)
+Example spec_sat_ids : sat_ids (2^63 + 2^58 + 1) = [1; 6; 64] /\ sat_ids 0 = [] /\ List.length (sat_ids (2^64 - 1)) = 64%nat.
+Proof. vm_compute. auto. Qed.
+Example spec_sig_ids : sig_ids (2^30 + 2^16 + 1) = [2; 16; 32].
+Proof. vm_compute. reflexivity. Qed.
+(* 2 satellites x 3 signals, cell mask 101 001: first satellite has signals 1 and 3, second only signal 3 *)
+Example spec_cells : cells [5; 9] [2; 16; 32] 41 = [(5, 2); (5, 32); (9, 32)].
+Proof. vm_compute. reflexivity. Qed.
+Example spec_cells_excess : cells [5; 9] [2; 16; 32] (41 + 64 * 7) = [(5, 2); (5, 32); (9, 32)].
+Proof. vm_compute. reflexivity. Qed.
+Example spec_labels :
+  spec_cellmap [(5, "005"%string)] [(2, ("L1", "1C")%string)] "N/A" true (2^59 + 2^55) (2^30 + 2^16) 9
+  = [(1, ("005", "1C")); (2, ("N/A", "N/A"))]%string.
+Proof. vm_compute. reflexivity. Qed.
+
 (* ====================== closed under the global context ====================== *)
 Print Assumptions scan_positions.
 Print Assumptions scan_positions_low.
